@@ -609,6 +609,8 @@ func (r *run) mixed(nTx int) {
 		r.out.Nontrivial("mix|" + res + "|" + cls)
 		// invariants of the token after the transaction: a change of (Σ balances − totalSupply) or (escrow − totalSupply)
 		postSum, postEsc := r.mixBooks(token, g)
+		r.rawSlots(token, []common.Address{mixerAddr, sinkAddr, holder.Address(), bx.Erc20ModuleAddr()},
+			[][2]common.Address{{mixerAddr, crosschaintypes.GetAddress()}, {holder.Address(), mixerAddr}}, "after a mixed transaction")
 		if preSum.Cmp(postSum) != 0 || preEsc.Cmp(postEsc) != 0 {
 			pc := "crossChain"
 			if firstB >= 0 {
